@@ -3,6 +3,7 @@ import io
 import itertools
 import random
 
+from bcverif import encode as E
 from bcverif.runner import pmap, setup_repo_import
 
 NAME_SPELLINGS = {"feature_name": ["feature_name", "FEATURE_NAME", "Feature_Name"],
@@ -148,6 +149,43 @@ def _perm_events(args):
     return ev
 
 
+GFF_KEYS = {"gene_name": "nm", "gene_symbol": "sy", "gene": "ge", "Name": "Nm", "gene_biotype": "protein_coding",
+            "gene_type": "lncRNA", "gene_id": "gid", "ID": "theid"}
+
+
+def _gff_pick_events(args):
+    """GFF3 gene rows carrying several of the recognised gene-attribute keys, in every order of column 9"""
+    orders, seed = args
+    setup_repo_import()
+    import os
+
+    from bcverif.runner import BUILD
+    from inscripta.biocantor.io.gff3.parser import parse_standard_gff3
+
+    tmpdir = os.path.join(BUILD, "C18", "gff")
+    os.makedirs(tmpdir, exist_ok=True)
+    ev = []
+    for n, keys in enumerate(orders):
+        attrs = ";".join("%s=%s" % (k, GFF_KEYS[k]) for k in keys)
+        text = ("##gff-version 3\n"
+                "chr1\tx\tgene\t11\t40\t.\t+\t.\t%s\n"
+                "chr1\tx\tmRNA\t11\t40\t.\t+\t.\tID=tx1;Parent=theid\n"
+                "chr1\tx\texon\t11\t40\t.\t+\t.\tID=ex1;Parent=tx1\n") % attrs
+        path = os.path.join(tmpdir, "g_%d_%d.gff3" % (seed, n))
+        with open(path, "w") as f:
+            f.write(text)
+
+        def parsed():
+            recs = list(parse_standard_gff3(path))
+            g = recs[0].annotation.genes[0]
+            return (str(g.gene_symbol), str(g.gene_type.name if hasattr(g.gene_type, "name") else g.gene_type),
+                    str(g.gene_id))
+
+        ev.append(["gffpick", [[k, GFF_KEYS[k]] for k in keys], E.outcome(parsed, lambda r: (list(r),))])
+        os.unlink(path)
+    return ev
+
+
 def _key(ev, clause):
     if clause == "priority:rank0-key-treated-as-unset":
         return "quals:rank0-key-unset"
@@ -175,6 +213,18 @@ def run(chk):
     evs += _other_events(chk.seed + 5)
     parts = pmap(_perm_events, [(chk.seed * 23 + i, 2 if quick else 12, 24 if quick else 120) for i in range(16)])
     evs += [e for p in parts for e in p]
+    # the GFF3 parser's own priority lists for gene symbol / biotype / id: every subset containing ID, every order
+    opt = [k for k in GFF_KEYS if k != "ID"]
+    orders = []
+    for n in range(0, 4 if quick else 5):
+        for c in itertools.combinations(opt, n):
+            for perm in itertools.permutations(c + ("ID",)):
+                orders.append(list(perm))
+    if quick:
+        orders = [o for o in orders if len(o) <= 3] + rnd.sample([o for o in orders if len(o) == 4], 400)
+    parts = pmap(_gff_pick_events, [(orders[i::16], chk.seed * 29 + i) for i in range(16)])
+    evs += [e for p in parts for e in p]
+    chk.extra["gff3_attribute_orders"] = len(orders)
     chk.validate("C18Trace", evs, shard=4000, label="quals", keyfn=_key)
     chk.exhaustive = not quick
     chk.nontrivial = len({str(e[1]) for e in evs})
